@@ -4,7 +4,10 @@ import (
 	"fmt"
 	"go/ast"
 	"go/types"
+	"sort"
 	"strings"
+
+	"golang.org/x/tools/go/cfg"
 )
 
 // copiers returns the in-package functions func(reflect.Value) reflect.Value whose body
@@ -309,4 +312,57 @@ func cloneCopiesData(ic *IC, r *Report, rule string) {
 	})
 	r.Check(len(bad) == 0 && fresh > 0 && copied, rule, "frame.clone/data-vector-copied", ic.pos(fi.Decl.Pos()), "the clone gets a fresh slot vector filled from the original",
 		fmt.Sprintf("(*frame).clone does not give the new frame a slot vector of its own on every path (fresh vectors: %d, copy of the slots: %v, shared: %s): a closure value then sees the slots of its defining frame being rebound after its creation, e.g. closures created in a loop at interactive level all see the last iteration's variable", fresh, copied, strings.Join(bad, "; ")))
+}
+
+// copiersAlwaysCopy: a copier (role "fix an argument value": func(reflect.Value) reflect.Value
+// allocating with reflect.New and copying with Set) hands back its argument itself only when
+// the argument is not settable. A settable value is a frame slot, a field or an element: the
+// arguments of a defer or go statement, fixed when the statement executes, must not follow a
+// later assignment to the variable, whatever the kind of the value (a slice header, a pointer
+// or a map variable can be reassigned like an int). Decided on the flow graph of the copier
+// pruned under <param>.CanSet() == true: no `return <param>` is reachable.
+func copiersAlwaysCopy(ic *IC, r *Report, rule string) {
+	n := 0
+	cps := copiers(ic)
+	var objs []*types.Func
+	for f := range cps {
+		objs = append(objs, f)
+	}
+	sort.Slice(objs, func(i, j int) bool { return objs[i].Pos() < objs[j].Pos() })
+	for _, f := range objs {
+		fi := ic.G.Funcs[f]
+		if fi == nil || fi.Decl.Body == nil || len(fi.Decl.Type.Params.List) != 1 || len(fi.Decl.Type.Params.List[0].Names) != 1 {
+			continue
+		}
+		param := ic.Info.ObjectOf(fi.Decl.Type.Params.List[0].Names[0])
+		n++
+		atom := func(e ast.Expr) int {
+			if c, ok := e.(*ast.CallExpr); ok && isCallTo(ic.Info, c, "reflect.Value.CanSet") {
+				if se, ok := unparen(c.Fun).(*ast.SelectorExpr); ok {
+					if id, ok := unparen(se.X).(*ast.Ident); ok && ic.Info.ObjectOf(id) == param {
+						return triTrue
+					}
+				}
+			}
+			return triUnknown
+		}
+		g := cfg.New(fi.Decl.Body, func(c *ast.CallExpr) bool { return !noReturn(ic.Info, c) })
+		var bad []string
+		prunedWalk(g, atom, func(nd ast.Node) bool {
+			if rs, ok := nd.(*ast.ReturnStmt); ok {
+				if len(rs.Results) == 1 {
+					if id, ok := unparen(rs.Results[0]).(*ast.Ident); ok && ic.Info.ObjectOf(id) == param {
+						bad = append(bad, ic.pos(rs.Pos()))
+					}
+				}
+				return true
+			}
+			return false
+		})
+		r.Check(len(bad) == 0, rule, funcName(fi.Decl)+"/settable-argument-copied", ic.pos(fi.Decl.Pos()), "a settable argument is never handed back itself",
+			funcName(fi.Decl)+" can return its argument itself although it is settable (at "+strings.Join(bad, ", ")+"): the value still designates the variable, field or element it was read from, so the argument of a defer or go statement follows a later assignment (s := []int{1}; defer host.F(s); s = nil hands nil to F)")
+	}
+	if n == 0 {
+		r.Errorf("%s: no argument copier (func(reflect.Value) reflect.Value using reflect.New and Set) found", rule)
+	}
 }
